@@ -9,6 +9,7 @@ package main
 // construct (with expected multiplicity); the rest is VIOLATED.
 
 import (
+	"os"
 	"fmt"
 	"go/token"
 	"go/types"
@@ -109,9 +110,82 @@ func (c *Ctx) domFacts(b *ssa.BasicBlock) []DomFact {
 			}
 		}
 	}
+	// a named boolean built by && / || (a phi of constants and one computed operand): when it has the
+	// polarity only the computed operand can give, that operand held and so did everything on the way to it
+	out = append(out, c.expandBoolPhis(out, 0)...)
 	// a block of a new (virtually inlined) helper inherits the facts holding at its unique call site
 	if site := c.activeSite(b.Parent()); site != nil && site.Block() != nil {
 		out = append(out, c.domFacts(site.Block())...)
+	}
+	return out
+}
+
+func (c *Ctx) expandBoolPhis(facts []DomFact, depth int) []DomFact {
+	var out []DomFact
+	if depth > 3 {
+		return nil
+	}
+	for _, f := range facts {
+		if f.Alts != nil {
+			continue
+		}
+		cond, pos := f.Cond, f.Pos
+		for i := 0; i < 4; i++ {
+			if u, ok := cond.(*ssa.UnOp); ok && u.Op == token.NOT {
+				cond, pos = u.X, !pos
+				continue
+			}
+			break
+		}
+		ph, ok := cond.(*ssa.Phi)
+		if !ok {
+			continue
+		}
+		if bt, ok := ph.Type().Underlying().(*types.Basic); !ok || bt.Info()&types.IsBoolean == 0 {
+			continue
+		}
+		cand := -1
+		n := 0
+		for i, e := range ph.Edges {
+			if k, isC := e.(*ssa.Const); isC && k.Value != nil {
+				if constantBool(k) != pos {
+					continue // this edge cannot give the polarity
+				}
+			}
+			cand = i
+			n++
+		}
+		if n != 1 {
+			continue
+		}
+		pred := ph.Block().Preds[cand]
+		var derived []DomFact
+		if _, isC := ph.Edges[cand].(*ssa.Const); !isC {
+			var iff *ssa.If
+			if x, ok := pred.Instrs[len(pred.Instrs)-1].(*ssa.If); ok {
+				iff = x
+			} else if f.If != nil {
+				iff = f.If
+			}
+			derived = append(derived, DomFact{Cond: ph.Edges[cand], Pos: pos, If: iff})
+		}
+		if iff, ok := pred.Instrs[len(pred.Instrs)-1].(*ssa.If); ok && pred.Succs[0] != pred.Succs[1] {
+			derived = append(derived, DomFact{Cond: iff.Cond, Pos: pred.Succs[0] == ph.Block(), If: iff})
+		}
+		// facts dominating the predecessor (plain ones only; no recursion into its own expansion here)
+		for d := pred.Idom(); d != nil; d = d.Idom() {
+			iff, ok := d.Instrs[len(d.Instrs)-1].(*ssa.If)
+			if !ok {
+				continue
+			}
+			for si := range d.Succs {
+				if edgeDominates(d, si, pred) {
+					derived = append(derived, DomFact{Cond: iff.Cond, Pos: si == 0, If: iff})
+				}
+			}
+		}
+		out = append(out, derived...)
+		out = append(out, c.expandBoolPhis(derived, depth+1)...)
 	}
 	return out
 }
@@ -679,7 +753,93 @@ func (n *npCtx) lenAxioms(a string, x ssa.Value) {
 			n.addLe(lin{a, 0}, lin{"", int64(len(s))})
 			n.addLe(lin{"", int64(len(s))}, lin{a, 0})
 		}
+	case *ssa.Phi:
+		n.collectLen(a, v)
 	}
+}
+
+// collectLen: S is built by the "collect" idiom — empty before a `for … range Y` loop, extended by
+// exactly one element on every trip (every back edge carries append(S, e)), and the loop is left only
+// by exhausting the range. At a use after the loop len(S) = len(Y).
+func (n *npCtx) collectLen(a string, p *ssa.Phi) {
+	if n.use == nil || !isSliceT(p.Type()) {
+		return
+	}
+	hdr := p.Block()
+	var loop *Loop
+	for _, l := range loopsOf(hdr.Parent()) {
+		if l.Header == hdr {
+			loop = l
+		}
+	}
+	if loop == nil || loop.Blocks[n.use.Block()] {
+		return
+	}
+	for i, e := range p.Edges {
+		pred := hdr.Preds[i]
+		if !loop.Blocks[pred] {
+			// initial value: an empty slice
+			switch x := n.c.resolve(e).(type) {
+			case *ssa.MakeSlice:
+				if k, ok := constInt(x.Len); !ok || k != 0 {
+					return
+				}
+			case *ssa.Const:
+				if x.Value != nil {
+					return
+				}
+			default:
+				return
+			}
+			continue
+		}
+		call, ok := e.(*ssa.Call)
+		if !ok || n.c.calleeName(call.Common()) != "append" || len(call.Call.Args) != 2 || call.Call.Args[0] != ssa.Value(p) {
+			return
+		}
+		if es := sliceLitElems(call.Call.Args[1]); len(es) != 1 {
+			return
+		}
+	}
+	// the loop: `for … range Y`, left only at the header
+	for _, e := range loop.exits() {
+		if e.B != hdr {
+			return
+		}
+	}
+	iff, ok := hdr.Instrs[len(hdr.Instrs)-1].(*ssa.If)
+	if !ok {
+		return
+	}
+	bo, ok := iff.Cond.(*ssa.BinOp)
+	if !ok || bo.Op != token.LSS {
+		return
+	}
+	// index: phi{-1 | idx+1} + 1 < len(Y)
+	inc, ok := bo.X.(*ssa.BinOp)
+	if !ok || inc.Op != token.ADD {
+		return
+	}
+	ip, ok := inc.X.(*ssa.Phi)
+	if k, isC := constInt(inc.Y); !ok || !isC || k != 1 || ip.Block() != hdr {
+		return
+	}
+	for i, e := range ip.Edges {
+		if !loop.Blocks[hdr.Preds[i]] {
+			if k, ok := constInt(e); !ok || k != -1 {
+				return
+			}
+		} else if e != ssa.Value(inc) {
+			return
+		}
+	}
+	y, ok := isLenCall(bo.Y)
+	if !ok {
+		return
+	}
+	ya := n.lenAtom(y)
+	n.addLe(lin{a, 0}, lin{ya, 0})
+	n.addLe(lin{ya, 0}, lin{a, 0})
 }
 
 // assume adds the constraints implied by a branch condition.
@@ -786,7 +946,106 @@ func (n *npCtx) assume(cond ssa.Value, pos bool) {
 				n.assumeInlined(cal, x, ret.Results[0], pos)
 			}
 		}
+		// a boolean package function: what must hold for it to answer `pos`
+		if cal := x.Common().StaticCallee(); cal != nil && cal.Blocks != nil && cal.Pkg == c.Pkg && n.depth < 3 {
+			n.assumeVerdict(cal, x, pos)
+		}
 	}
+}
+
+// assumeVerdict: the call answered `verdict`. Every return of the callee that can produce that answer
+// is examined; the branch conditions common to all of them (those dominating the return, or the phi
+// edge that carries the non-constant answer) necessarily held, and are assumed with the callee's
+// parameters bound to the arguments of this call. Pure conditions only (no memory the callee writes).
+func (n *npCtx) assumeVerdict(cal *ssa.Function, call *ssa.Call, verdict bool) {
+	c := n.c
+	res := cal.Signature.Results()
+	if res.Len() != 1 {
+		return
+	}
+	if bt, ok := res.At(0).Type().Underlying().(*types.Basic); !ok || bt.Info()&types.IsBoolean == 0 {
+		return
+	}
+	for _, f := range c.frames {
+		if f.Common().StaticCallee() == cal {
+			return
+		}
+	}
+	origins, ok := c.verdictOrigins(cal, verdict)
+	if !ok {
+		return
+	}
+	key := func(f vfact) string { return fmt.Sprintf("%p/%v", f.cond, f.pos) }
+	var common map[string]vfact
+	for _, fs := range origins {
+		m := map[string]vfact{}
+		for _, f := range fs {
+			m[key(f)] = f
+		}
+		if common == nil {
+			common = m
+			continue
+		}
+		for k := range common {
+			if _, ok := m[k]; !ok {
+				delete(common, k)
+			}
+		}
+	}
+	if len(common) == 0 {
+		return
+	}
+	c.frames = append(c.frames, call)
+	defer func() { c.frames = c.frames[:len(c.frames)-1] }()
+	n.depth++
+	defer func() { n.depth-- }()
+	for _, f := range common {
+		// only conditions over the parameters (no loads of memory the callee may have changed)
+		if !pureCondition(c, f.cond) {
+			continue
+		}
+		n.assume(f.cond, f.pos)
+	}
+}
+
+// pureCondition: the condition is built from parameters, constants, len/index of strings and pure calls.
+func pureCondition(c *Ctx, v ssa.Value) bool {
+	ok := true
+	seen := map[ssa.Value]bool{}
+	var walk func(v ssa.Value, d int)
+	walk = func(v ssa.Value, d int) {
+		if v == nil || seen[v] || d > 12 {
+			return
+		}
+		seen[v] = true
+		switch x := v.(type) {
+		case *ssa.Const, *ssa.Parameter, *ssa.Builtin, *ssa.Function:
+			return
+		case *ssa.Call:
+			if !npPureCall(c, x) {
+				ok = false
+				return
+			}
+		case *ssa.UnOp:
+			if x.Op == token.MUL {
+				ok = false // a load
+				return
+			}
+		case *ssa.BinOp, *ssa.Index, *ssa.Lookup, *ssa.Convert, *ssa.Slice, *ssa.Phi, *ssa.Extract:
+		default:
+			ok = false
+			return
+		}
+		if in, isIn := v.(ssa.Instruction); isIn {
+			for _, op := range in.Operands(nil) {
+				if *op != nil {
+					walk(*op, d+1)
+				}
+			}
+		}
+	}
+	walk(v, 0)
+	return ok
 }
 
 // assumeInlined handles helpers of the shape `return len(recv.f) == 0`.
@@ -1096,6 +1355,17 @@ func (c *Ctx) npProve(use ssa.Instruction, fx *Facts, query func(n *npCtx) bool)
 	n, live := c.npAt(use, fx)
 	if query(n) {
 		return true
+	}
+	if os.Getenv("GF_NPDEBUG") != "" && strings.Contains(c.ipos(use), os.Getenv("GF_NPDEBUG")) {
+		fmt.Fprintf(os.Stderr, "NPDEBUG %s in %s: %d live facts\n", c.ipos(use), c.fname(use.Parent()), len(live))
+		for _, f := range live {
+			fmt.Fprintf(os.Stderr, "   fact pos=%v alts=%d %s\n", f.Pos, len(f.Alts), trunc(c.term(f.Cond), 120))
+		}
+		for y, m := range n.edges {
+			for x, w := range m {
+				fmt.Fprintf(os.Stderr, "   %s - %s <= %d\n", trunc(x, 60), trunc(y, 60), w)
+			}
+		}
 	}
 	for _, f := range live {
 		if f.Alts == nil {
@@ -1743,4 +2013,59 @@ func selfStep(p *ssa.Phi, v ssa.Value) (int64, bool) {
 		v = bo.X
 	}
 	return 0, false
+}
+
+// vfact: a branch condition of a callee with the polarity it had.
+type vfact struct {
+	cond ssa.Value
+	pos  bool
+}
+
+// verdictOrigins: for a boolean function, every way it can answer `verdict` — a return of that constant,
+// or a non-constant answer (directly or through a phi edge) — with the branch conditions that necessarily
+// held there. ok=false when the function is not a plain boolean predicate.
+func (c *Ctx) verdictOrigins(cal *ssa.Function, verdict bool) ([][]vfact, bool) {
+	res := cal.Signature.Results()
+	if res.Len() != 1 || cal.Blocks == nil {
+		return nil, false
+	}
+	if bt, ok := res.At(0).Type().Underlying().(*types.Basic); !ok || bt.Info()&types.IsBoolean == 0 {
+		return nil, false
+	}
+	var out [][]vfact
+	factsAt := func(b *ssa.BasicBlock) []vfact {
+		var fs []vfact
+		for _, d := range c.domFacts(b) {
+			if d.Alts == nil && d.If != nil && d.If.Parent() == cal {
+				fs = append(fs, vfact{d.Cond, d.Pos})
+			}
+		}
+		return fs
+	}
+	var origin func(v ssa.Value, b *ssa.BasicBlock, extra []vfact, depth int)
+	origin = func(v ssa.Value, b *ssa.BasicBlock, extra []vfact, depth int) {
+		if k, ok := v.(*ssa.Const); ok && k.Value != nil {
+			if constantBool(k) != verdict {
+				return
+			}
+			out = append(out, append(factsAt(b), extra...))
+			return
+		}
+		if ph, ok := v.(*ssa.Phi); ok && depth < 4 {
+			for i, e := range ph.Edges {
+				pred := ph.Block().Preds[i]
+				ex := append([]vfact{}, extra...)
+				if iff, ok := pred.Instrs[len(pred.Instrs)-1].(*ssa.If); ok {
+					ex = append(ex, vfact{iff.Cond, pred.Succs[0] == ph.Block()})
+				}
+				origin(e, pred, ex, depth+1)
+			}
+			return
+		}
+		out = append(out, append(append(factsAt(b), extra...), vfact{v, verdict}))
+	}
+	for _, ret := range returnsOf(cal) {
+		origin(ret.Results[0], ret.Block(), nil, 0)
+	}
+	return out, true
 }
